@@ -33,12 +33,23 @@ import gen_c08 as G
 
 TARGET = "t.py"
 SIZES = [0, 1, 8191, 8192, 8193, 102400]
+# target names near NAME_MAX (255): "<name>.tmp.<pid>" fits up to about 243..245 characters, then not at all
+NAME_LENS = [240, 243, 244, 245, 246, 247, 248, 249, 250, 251, 252, 253, 254, 255]
 MODES = ["0600", "0644", "0755", "0444"]
 MODE_FAIL = "permission bits of the original not carried by the target"
 
 
 def _mode(s):
     return int(s, 8)
+
+
+def tname(case):
+    """target file name; `name_len` asks for a name of exactly that many characters (near NAME_MAX the temp
+    name <target>.tmp.<pid> no longer fits: the real code must fail with ENAMETOOLONG and leave the target alone)"""
+    n = case.get("name_len")
+    if not n:
+        return TARGET
+    return "t" * (n - 3) + ".py"
 
 
 class C08(Prop):
@@ -55,6 +66,7 @@ class C08(Prop):
         "Pfb.C08.C08_two_writers",
         "Pfb.C08.C08_two_writers_final",
         "Pfb.C08.C08_ops_trace",
+        "Pfb.C08.C08_name_too_long",
         "Pfb.C08.tmpName_inj",
         "Pfb.C08.tmpName_ne_target",
     ]
@@ -80,6 +92,7 @@ class C08(Prop):
     ]
     assumptions = [
         "two concurrent writers have distinct pids (the temp name is <target>.tmp.<pid>)",
+        "only open() checks NAME_MAX in the model (a target whose temp name does not fit: ENAMETOOLONG, target untouched)",
         "no third party touches the target or the temp files during the replacement",
         "the target is a regular file or absent (symlinks are C09's subject)",
         "a failed write(2) has no effect on the temp file in the model; the temp file after a failed write/close is only "
@@ -98,6 +111,10 @@ class C08(Prop):
         um = os.umask(0)
         os.umask(um)
         self.dflt = 0o666 & ~um
+        try:
+            self.name_max = os.pathconf(self.scratch, "PC_NAME_MAX")
+        except (OSError, ValueError):
+            self.name_max = 255
         self.root_user = (os.geteuid() == 0)
         self.old_gid = 4242 if self.root_user else os.getegid()
         self._strict = None
@@ -146,7 +163,7 @@ class C08(Prop):
 
     def _populate(self, root, case):
         ob = self._old_bytes(case)
-        path = os.path.join(root, TARGET)
+        path = os.path.join(root, tname(case))
         if ob is not None:
             with open(path, "wb") as f:
                 f.write(ob)
@@ -155,12 +172,14 @@ class C08(Prop):
                 os.chown(path, -1, self.old_gid)
         return path
 
-    def _prepare(self, root, stale, tag):
+    def _prepare(self, root, stale, tag, name=TARGET):
         if not stale:
             return None
 
         def prep(pid):
-            p = os.path.join(root, "%s.tmp.%d" % (TARGET, pid))
+            p = os.path.join(root, "%s.tmp.%d" % (name, pid))
+            if len(os.path.basename(p)) > self.name_max:
+                return          # such a stale file cannot exist
             with open(p, "wb") as f:
                 f.write(G.content(tag, stale["size"]).encode())
             os.chmod(p, _mode(stale["mode"]))
@@ -196,7 +215,7 @@ class C08(Prop):
         """complete new contents for the command-line entry = what a fault-free run leaves"""
         key = (case["old"]["size"],)
         if key not in self._ref:
-            c = dict(case, kind="crash", k=10 ** 9, cap=None, stale=None)
+            c = dict(case, kind="crash", k=10 ** 9, cap=None, stale=None, name_len=None)
             root = self._mkroot()
             try:
                 path = self._populate(root, c)
@@ -215,7 +234,7 @@ class C08(Prop):
     def ncalls(self, case):
         """number of call boundaries of a fault-free run of this configuration (recorded on the real code)"""
         self.env()
-        key = (case.get("via"), str(case.get("old")), case.get("new_size"), case.get("cap"), str(case.get("stale")))
+        key = (case.get("via"), str(case.get("old")), case.get("new_size"), case.get("cap"), str(case.get("stale")), case.get("name_len"))
         if key not in self._nc:
             obs = self.run_impl(dict(case, kind="crash", k=10 ** 9))
             self._nc[key] = len(obs["calls"])
@@ -225,7 +244,7 @@ class C08(Prop):
         """number of call boundaries when call k raises `errno` (recorded on the real code): the crash points
         j > k of a fault-then-crash case"""
         self.env()
-        key = ("F", case.get("via"), str(case.get("old")), case.get("new_size"), case.get("cap"), str(case.get("stale")), k)
+        key = ("F", case.get("via"), str(case.get("old")), case.get("new_size"), case.get("cap"), str(case.get("stale")), case.get("name_len"), k)
         if key not in self._nc:
             obs = self.run_impl(dict(case, kind="fault", k=k, errno=errno))
             self._nc[key] = len(obs["calls"])
@@ -249,7 +268,10 @@ class C08(Prop):
         old = None if rng.random() < 0.12 else dict(size=rng.choice(SIZES), mode=rng.choice(MODES))
         ns = rng.choice(SIZES + [2, 100, 4096, 4097, 12289])
         stale = None if rng.random() < 0.75 else dict(size=rng.choice([0, 1, 50, 9000]), mode=rng.choice(MODES))
-        return dict(via=via, old=old, new_size=ns, cap=self._cap_for(rng, ns), stale=stale)
+        cfg = dict(via=via, old=old, new_size=ns, cap=self._cap_for(rng, ns), stale=stale)
+        if rng.random() < 0.15:
+            cfg["name_len"] = rng.choice(NAME_LENS)
+        return cfg
 
     def _rand_sched(self, rng, base=None):
         c = base or dict(via="func",
@@ -259,6 +281,8 @@ class C08(Prop):
                          stale=None if rng.random() < 0.8 else dict(size=40, mode=rng.choice(MODES)),
                          stale_b=None if rng.random() < 0.8 else dict(size=0, mode="0600"))
         c = dict(c)
+        if base is None and rng.random() < 0.15:
+            c["name_len"] = rng.choice(NAME_LENS)
         c.setdefault("cap", self._cap_for(rng, c["new_size"]))
         c.setdefault("cap_b", self._cap_for(rng, c["new_size_b"]))
         na = self.ncalls(dict(via="func", old=c["old"], new_size=c["new_size"], cap=c["cap"], stale=None))
@@ -335,6 +359,21 @@ class C08(Prop):
                 out.append(dict(cfg, kind="fault", k=k, errno=en))
                 for j in range(k + 1, self.ncalls_fault(cfg, k, en)):
                     out.append(dict(cfg, kind="faultcrash", k=k, errno=en, j=j))
+        # target names near NAME_MAX: every crash point / fault position / fault-then-crash, both entries
+        for nl in NAME_LENS:
+            cfgs = [dict(via="func", old=dict(size=100, mode="0600"), new_size=60, cap=None, stale=None, name_len=nl)]
+            if thorough or nl in (250, 255):
+                cfgs.append(dict(via="func", old=None, new_size=8193, cap=None, stale=None, name_len=nl))
+                cfgs.append(dict(via="cmdline", old=dict(size=200, mode="0755"), new_size=None, cap=None, stale=None, name_len=nl))
+            for cfg in cfgs:
+                n = self.ncalls(cfg)
+                for k in range(n + 1):
+                    out.append(dict(cfg, kind="crash", k=k))
+                for k in range(n):
+                    en = G.ERRNOS[(k + nl) % len(G.ERRNOS)]
+                    out.append(dict(cfg, kind="fault", k=k, errno=en))
+                    for j in range(k + 1, self.ncalls_fault(cfg, k, en)):
+                        out.append(dict(cfg, kind="faultcrash", k=k, errno=en, j=j))
         # two writers: all interleavings of the two 7-call skeletons (thorough) / a sample (quick)
         base = dict(via="func", old=dict(size=100, mode="0600"), new_size=60, new_size_b=70, cap=None, cap_b=None,
                     stale=None, stale_b=None)
@@ -352,6 +391,14 @@ class C08(Prop):
             for p in pos:
                 s[p] = "A"
             out.append(dict(base, kind="sched", sched="".join(s)))
+        # two writers of a target with a long name (schedules of the full 7-call skeletons: if the implementation
+        # does not fail at `open`, its interleavings are exercised)
+        for nl in NAME_LENS:
+            for pos in rng.sample(combos, min(len(combos), 60 if thorough else 8)):
+                s = ["B"] * (na + nb)
+                for p in pos:
+                    s[p] = "A"
+                out.append(dict(base, kind="sched", sched="".join(s), name_len=nl))
         if thorough:
             for syscall in (None, "chmod", "chown", "rename"):
                 for action in ((None,) if syscall is None else ("error=EPERM", "error=EIO", "signal=KILL")):
@@ -368,15 +415,15 @@ class C08(Prop):
         root = self._mkroot()
         try:
             path = self._populate(root, case)
-            envd = dict(dflt="%04o" % self.dflt, egid=os.getegid(), old_gid=self.old_gid)
+            envd = dict(dflt="%04o" % self.dflt, egid=os.getegid(), old_gid=self.old_gid, name_max=self.name_max)
             if case["kind"] == "sched":
                 r = G.run_pair([self._entry(case, path, "A"), self._entry(case, path, "B")], root,
-                               [self._plan(case, "A"), self._plan(case, "B")], case["sched"], TARGET,
-                               (self._prepare(root, case.get("stale"), "staleA"),
-                                self._prepare(root, case.get("stale_b"), "staleB")))
+                               [self._plan(case, "A"), self._plan(case, "B")], case["sched"], tname(case),
+                               (self._prepare(root, case.get("stale"), "staleA", tname(case)),
+                                self._prepare(root, case.get("stale_b"), "staleB", tname(case))))
                 return dict(A=r["A"], B=r["B"], snaps=r["snaps"], files=G.snapshot(root), env=envd)
             r = G.run_single(self._entry(case, path), root, self._plan(case, watch=path),
-                             self._prepare(root, case.get("stale"), "staleA"))
+                             self._prepare(root, case.get("stale"), "staleA", tname(case)))
             obs = dict(pid=r["pid"], calls=r["calls"], fin=r["fin"], exit=r["exit"], files=G.snapshot(root), env=envd)
             if case.get("via") == "cmdline":
                 nb = self._reference_new(case)
@@ -442,10 +489,10 @@ class C08(Prop):
             os.unlink(log)
             fin = "returned" if p.returncode == 0 else ("killed" if p.returncode in (-9, 137) else "raised:SystemExit")
             obs = dict(pid=None, calls=calls, fin=fin, exit="exit:%d" % p.returncode, files=G.snapshot(root),
-                       env=dict(dflt="%04o" % self.dflt, egid=os.getegid(), old_gid=self.old_gid))
+                       env=dict(dflt="%04o" % self.dflt, egid=os.getegid(), old_gid=self.old_gid, name_max=self.name_max))
             # pid of the writer = suffix of the temp name it opened
             for c in calls:
-                mm = re.match(re.escape(TARGET) + r"\.tmp\.(\d+)$", c.get("path", ""))
+                mm = re.match(re.escape(tname(case)) + r"\.tmp\.(\d+)$", c.get("path", ""))
                 if c["op"] == "open" and mm:
                     obs["pid"] = int(mm.group(1))
             nb = self._reference_new(case)
@@ -489,7 +536,7 @@ class C08(Prop):
                 fails.extend(fl)
                 if fails:
                     break
-            fl, which = self._judge(obs["files"].get(TARGET), old_b, old_mode, news, "final")
+            fl, which = self._judge(obs["files"].get(tname(case)), old_b, old_mode, news, "final")
             fails.extend(fl)
             done = [X for X in "AB" if obs[X]["fin"] == "returned"]
             if done and not fl and (which is None or not any(w in ("newA", "newB") for w in which.split("="))):
@@ -512,7 +559,7 @@ class C08(Prop):
                 if fl:
                     fails.extend(fl)
                     break
-        fl, which = self._judge(obs["files"].get(TARGET), old_b, old_mode, news, where + ": survivor")
+        fl, which = self._judge(obs["files"].get(tname(case)), old_b, old_mode, news, where + ": survivor")
         fails.extend(fl)
         fault_op = None
         if case["kind"] in ("fault", "faultcrash") and k is not None and k < len(obs["calls"]):
@@ -562,7 +609,7 @@ class C08(Prop):
 
     def model_requests(self, case, obs):
         e = obs["env"]
-        base = dict(strict=self.strict(), target=TARGET, dflt=_mode(e["dflt"]), dgid=e["egid"],
+        base = dict(strict=self.strict(), target=tname(case), dflt=_mode(e["dflt"]), dgid=e["egid"], namemax=e["name_max"],
                     old=None if case.get("old") is None else
                     self._filej(len(self._old_bytes(case)), case["old"]["mode"], e["old_gid"], 0))
         if case["kind"] == "sched":
@@ -570,17 +617,19 @@ class C08(Prop):
             for X, off, st in (("A", 0, case.get("stale")), ("B", 1000, case.get("stale_b"))):
                 pid = obs[X]["pid"]
                 total = len(self._new_bytes(case, X))
-                ch = self._chunks(obs[X]["calls"], total, "%s.tmp.%d" % (TARGET, pid))
+                ch = self._chunks(obs[X]["calls"], total, "%s.tmp.%d" % (tname(case), pid))
                 req[X] = dict(pid=pid, chunks=[[off + i + 1] for i in range(len(ch))], sizes=ch,
-                              stale=None if not st else self._filej(st["size"], st["mode"], e["egid"], 900 + off))
+                              stale=None if (not st or len("%s.tmp.%d" % (tname(case), pid)) > e["name_max"])
+                              else self._filej(st["size"], st["mode"], e["egid"], 900 + off))
             return [req]
         if obs.get("pid") is None:
             return []
         total = len(self._new_bytes(case))
-        ch = self._chunks(obs["calls"], total, "%s.tmp.%d" % (TARGET, obs["pid"]))
+        ch = self._chunks(obs["calls"], total, "%s.tmp.%d" % (tname(case), obs["pid"]))
         st = case.get("stale")
         req = dict(base, op="run", pid=obs["pid"], chunks=[[i + 1] for i in range(len(ch))], sizes=ch,
-                   stale=None if not st else self._filej(st["size"], st["mode"], e["egid"], 900),
+                   stale=None if (not st or len("%s.tmp.%d" % (tname(case), obs["pid"])) > e["name_max"])
+                   else self._filej(st["size"], st["mode"], e["egid"], 900),
                    fuel=None, fault=None)
         if case["kind"] == "crash":
             req["fuel"] = case["k"]
@@ -677,7 +726,7 @@ class C08(Prop):
         r = resps[0]
         e = obs["env"]
         if case["kind"] == "sched":
-            sizes = {off: self._chunks(obs[X]["calls"], len(self._new_bytes(case, X)), "%s.tmp.%d" % (TARGET, obs[X]["pid"]))
+            sizes = {off: self._chunks(obs[X]["calls"], len(self._new_bytes(case, X)), "%s.tmp.%d" % (tname(case), obs[X]["pid"]))
                      for X, off in (("A", 0), ("B", 1000))}
             stale = {}
             if case.get("stale"):
@@ -702,7 +751,7 @@ class C08(Prop):
                 if d:
                     return d
             return None
-        sizes = {0: self._chunks(obs["calls"], len(self._new_bytes(case)), "%s.tmp.%d" % (TARGET, obs["pid"]))}
+        sizes = {0: self._chunks(obs["calls"], len(self._new_bytes(case)), "%s.tmp.%d" % (tname(case), obs["pid"]))}
         stale = {}
         if case.get("stale"):
             stale[900] = G.content("staleA", case["stale"]["size"]).encode()
@@ -726,7 +775,7 @@ class C08(Prop):
             got = want          # died among the flush/close calls CPython issues while the error propagates
         if want != got:
             return "outcome: implementation %s, model %s" % (got, want)
-        d = self._same_file(obs["files"].get(TARGET), r["target"], case, sizes, stale, "target")
+        d = self._same_file(obs["files"].get(tname(case)), r["target"], case, sizes, stale, "target")
         if d:
             return d
         # the observer's view after every call = the model's target after the same number of steps
@@ -751,15 +800,17 @@ class C08(Prop):
     def sample_repr(self, case, obs):
         c = {k: v for k, v in case.items() if not k.startswith("_")}
         if case["kind"] == "sched":
-            return dict(case=c, final=obs["files"].get(TARGET), finA=obs["A"]["fin"], finB=obs["B"]["fin"])
+            return dict(case=c, final=obs["files"].get(tname(case)), finA=obs["A"]["fin"], finB=obs["B"]["fin"])
         return dict(case=c, calls=[self._norm_call(x) for x in obs["calls"]][:12], fin=obs["fin"], exit=obs["exit"],
-                    target=obs["files"].get(TARGET))
+                    target=obs["files"].get(tname(case)))
 
     def stats(self, case, obs, acc):
         def inc(k):
             acc[k] = acc.get(k, 0) + 1
         inc("kind_" + case["kind"])
         inc("via_" + str(case.get("via")))
+        if case.get("name_len"):
+            inc("long_name_%d" % case["name_len"])
         inc("src_" + case.get("_src", "?"))
         if case["kind"] == "sched":
             inc("sched_len_%d" % (len(case["sched"]) // 5 * 5))
